@@ -111,6 +111,23 @@ Theorem C15_inner_default_unreachable : forall st t o st' w id,
   step st t o = Ok (st', w) -> ~ In (RErr (EInnerDefault id)) w.
 Proof. exact step_no_inner_default. Qed.
 
+(* the text layer: `<command> <params>` with a command word without blanks is dispatched to that command
+   with exactly that argument text, a bare word to that command with empty arguments; the number syntax
+   of ids / windows is Rust's (samples; the correspondence check compares many more) *)
+Theorem C15_frame_split : forall c p, no_space c = true ->
+  command_of (c ++ String sp p) = c /\ params_of (c ++ String sp p) = p /\
+  command_of c = c /\ params_of c = "".
+Proof.
+  intros c p H. destruct (frame_command c p H) as [A B]. destruct (frame_command_bare c H) as [C D]. auto.
+Qed.
+
+Example C15_number_syntax :
+  map parse_u32 ["7"; "+7"; "007"; "4294967295"; "4294967296"; ""; "+"; "-0"; "++1"; "1 "; " 1"; "1_0"; "0x1"] =
+  [Some 7; Some 7; Some 7; Some 4294967295; None; None; None; None; None; None; None; None; None]
+  /\ split_on sp "" = [""] /\ split_on sp " 5" = [""; "5"] /\ split_on sp "5  x" = ["5"; ""; "x"]
+  /\ splitn2 sp "stop 5 6" = ["stop"; "5 6"] /\ splitn2 sp "" = [""].
+Proof. vm_compute. repeat split; reflexivity. Qed.
+
 (* ------------------------------------------------------------------ the whole event loop
    loop { process_file_context; read a frame; dispatch }  (Remote/DispatchTick.v): the passes of
    process_file_context between the commands (TMsgs: messages arrived, TDone: a query finished) and the
@@ -161,6 +178,26 @@ Theorem C15_loop_state_consistent : forall st h st' ws,
   run_loop st h = Ok (st', ws) -> abs st' = spec_run (abs st) (map proj_item h) ws.
 Proof. intros st h st' ws H. exact (run_loop_abs h st st' ws H). Qed.
 
+(* hence the reply-level characterisations also hold after every non-panicking run of the loop *)
+Theorem C15_loop_file_open_iff : forall st h st' ws t o,
+  run_loop st h = Ok (st', ws) ->
+  command_of t = "pause" \/ command_of t = "resume" \/ command_of t = "close" ->
+  exists st'' r, step st' t o = Ok (st'', [r]) /\ reply_ok r = spec_open (spec_run (abs st) (map proj_item h) ws).
+Proof.
+  intros st h st' ws t o H Hc. rewrite <- (run_loop_abs h st st' ws H). exact (step_pause_close st' t o Hc).
+Qed.
+
+Theorem C15_loop_stream_id_usable_iff : forall st h st' ws t o id,
+  run_loop st h = Ok (st', ws) ->
+  is_id_command (command_of t) = true ->
+  parse_u32 (hd "" (split_on sp (params_of t))) = Some id ->
+  exists st'' r, step st' t o = Ok (st'', [r]) /\
+    reaches_stream r = spec_live (spec_run (abs st) (map proj_item h) ws) id /\
+    (command_of t = "stop" -> reply_ok r = spec_live (spec_run (abs st) (map proj_item h) ws) id).
+Proof.
+  intros st h st' ws t o id H Hc Hp. rewrite <- (run_loop_abs h st st' ws H). exact (step_id_usable st' t o id Hc Hp).
+Qed.
+
 (* non-vacuity / sanity: a concrete session through the executable model — open, a stream, a query that
    finishes on its own, a renewed window, the old id is gone, the new one can be stopped once, a search
    without body is answered err:, close, open again *)
@@ -202,9 +239,13 @@ Print Assumptions C15_stream_id_usable_iff.
 Print Assumptions C15_close_then_open.
 Print Assumptions C15_ids_fresh.
 Print Assumptions C15_inner_default_unreachable.
+Print Assumptions C15_frame_split.
+Print Assumptions C15_number_syntax.
 Print Assumptions C15_tick_one_pass_refuted.
 Print Assumptions C15_tick_one_pass_window_refuted.
 Print Assumptions C15_loop_one_reply_no_crash.
 Print Assumptions C15_loop_init_inv.
 Print Assumptions C15_loop_state_consistent.
+Print Assumptions C15_loop_file_open_iff.
+Print Assumptions C15_loop_stream_id_usable_iff.
 Print Assumptions C15_nonvacuous.
